@@ -14,7 +14,6 @@ import (
 	"encoding/json"
 	"fmt"
 	"reflect"
-	"sort"
 
 	abci "github.com/tendermint/tendermint/abci/types"
 
@@ -60,106 +59,113 @@ func c11AminoTx(txCfg client.TxConfig, signed, carried sdk.Msg, signer cryptotyp
 	return txCfg.TxEncoder()(b.GetTx())
 }
 
+// c11Zero reports whether v is the zero value of its type (such fields are left out of the signed JSON)
+func c11Zero(v reflect.Value) bool { return v.IsZero() }
+
 func c11SignBytes(r *RunCtx, reg codectypes.InterfaceRegistry, urls []string) error {
 	txCfg := japp.MakeEncodingConfig().TxConfig
 	priv := secp256k1.GenPrivKeyFromSecret([]byte("c11-amino-signer"))
 	addr := sdk.AccAddress(priv.PubKey().Address())
-	type inst struct {
-		url  string
-		msg  sdk.Msg
-		bare []byte
-	}
-	byShape := map[string][]inst{}
-	for _, url := range urls {
+	// the message the creator signs: every field set (the same value under the same field name in every type)
+	full := func(url string) (sdk.Msg, bool) {
 		msg, err := c11Clone(reg, url)
 		if err != nil {
-			return err
+			return nil, false
 		}
 		c11Fill(msg, NewPRNG(77), 300, false) // the same generator state for every type: equal fields get equal values
 		cf := reflect.ValueOf(msg).Elem().FieldByName("Creator")
 		if !cf.IsValid() || cf.Kind() != reflect.String {
-			continue // already reported by part A
+			return nil, false // already reported by part A
 		}
 		cf.SetString(addr.String())
 		if nf := reflect.ValueOf(msg).Elem().FieldByName("Name"); nf.IsValid() && nf.Kind() == reflect.String {
 			nf.SetString("alpha.jkl") // a value most ValidateBasic methods let through
 		}
-		bare, err := json.Marshal(msg)
+		return msg, true
+	}
+	// the message it is swapped for: the same values under the same field names, nothing anywhere else
+	like := func(url string, a sdk.Msg) (sdk.Msg, bool) {
+		b, err := c11Clone(reg, url)
+		if err != nil {
+			return nil, false
+		}
+		av, bv := reflect.ValueOf(a).Elem(), reflect.ValueOf(b).Elem()
+		for i := 0; i < bv.NumField(); i++ {
+			f := bv.Type().Field(i)
+			if af := av.FieldByName(f.Name); af.IsValid() && af.Type() == f.Type && bv.Field(i).CanSet() {
+				bv.Field(i).Set(af)
+			}
+		}
+		return b, true
+	}
+	for _, ua := range urls {
+		a, ok := full(ua)
+		if !ok {
+			continue
+		}
+		bareA, err := json.Marshal(a)
 		if err != nil {
 			continue
 		}
-		var fields map[string]json.RawMessage
-		if json.Unmarshal(bare, &fields) != nil {
-			continue
-		}
-		names := []string{}
-		for k := range fields {
-			names = append(names, k)
-		}
-		sort.Strings(names)
-		byShape[fmt.Sprint(names)] = append(byShape[fmt.Sprint(names)], inst{url, msg, bare})
-	}
-	shapes := []string{}
-	for s := range byShape {
-		shapes = append(shapes, s)
-	}
-	sort.Strings(shapes)
-	for _, s := range shapes {
-		g := byShape[s]
-		r.Hist("message types with the same field names", fmt.Sprint(len(g)))
-		for i := 0; i < len(g); i++ {
-			for j := 0; j < len(g); j++ {
-				if i == j || !bytes.Equal(g[i].bare, g[j].bare) {
-					continue // (different kinds of fields under the same names)
-				}
-				a, b := g[i], g[j]
-				e, err := NewEnv()
-				if err != nil {
-					return err
-				}
-				e.App.AccountKeeper.SetAccount(e.Ctx, e.App.AccountKeeper.NewAccountWithAddress(e.Ctx, addr))
-				if err := e.Fund(addr, "ujkl", 10_000_000_000); err != nil {
-					return err
-				}
-				acc := e.App.AccountKeeper.GetAccount(e.Ctx, addr)
-				seq := func() uint64 { return e.App.AccountKeeper.GetAccount(e.Ctx, addr).GetSequence() }
-				desc := map[string]interface{}{"signed": a.url, "delivered": b.url, "fields": string(a.bare), "signer": addr.String()}
-				lifted, err := c11AminoTx(txCfg, a.msg, b.msg, priv, acc.GetAccountNumber(), acc.GetSequence())
-				if err != nil {
-					e.Close()
-					return err
-				}
-				// the chain's own verification of that signature against the transaction that carries B
-				verifies := false
-				if tx, derr := txCfg.TxDecoder()(lifted); derr == nil {
-					if stx, ok := tx.(authsign.SigVerifiableTx); ok {
-						if sigs, serr := stx.GetSignaturesV2(); serr == nil && len(sigs) == 1 {
-							sd := authsign.SignerData{ChainID: "verif", AccountNumber: acc.GetAccountNumber(), Sequence: acc.GetSequence()}
-							verifies = authsign.VerifySignature(priv.PubKey(), sd, sigs[0].Data, txCfg.SignModeHandler(), tx) == nil
-						}
+		for _, ub := range urls {
+			if ua == ub {
+				continue
+			}
+			b, ok := like(ub, a)
+			if !ok {
+				continue
+			}
+			bareB, err := json.Marshal(b)
+			if err != nil || !bytes.Equal(bareA, bareB) {
+				continue // the two differ in a field name or kind: their signed documents differ whatever the codec does
+			}
+			e, err := NewEnv()
+			if err != nil {
+				return err
+			}
+			e.App.AccountKeeper.SetAccount(e.Ctx, e.App.AccountKeeper.NewAccountWithAddress(e.Ctx, addr))
+			if err := e.Fund(addr, "ujkl", 10_000_000_000); err != nil {
+				return err
+			}
+			acc := e.App.AccountKeeper.GetAccount(e.Ctx, addr)
+			seq := func() uint64 { return e.App.AccountKeeper.GetAccount(e.Ctx, addr).GetSequence() }
+			desc := map[string]interface{}{"signed": ua, "delivered": ub, "fields": string(bareA), "signer": addr.String()}
+			lifted, err := c11AminoTx(txCfg, a, b, priv, acc.GetAccountNumber(), acc.GetSequence())
+			if err != nil {
+				e.Close()
+				return err
+			}
+			// the chain's own verification of that signature against the transaction that carries B
+			verifies := false
+			if tx, derr := txCfg.TxDecoder()(lifted); derr == nil {
+				if stx, ok := tx.(authsign.SigVerifiableTx); ok {
+					if sigs, serr := stx.GetSignaturesV2(); serr == nil && len(sigs) == 1 {
+						sd := authsign.SignerData{ChainID: "verif", AccountNumber: acc.GetAccountNumber(), Sequence: acc.GetSequence()}
+						verifies = authsign.VerifySignature(priv.PubKey(), sd, sigs[0].Data, txCfg.SignModeHandler(), tx) == nil
 					}
 				}
-				res := e.App.DeliverTx(abci.RequestDeliverTx{Tx: lifted})
-				r.Count("lifted:"+a.url+">"+b.url, true)
-				r.Hist("lifted signature", fmt.Sprintf("verifies=%v deliver=%s/%d", verifies, res.Codespace, res.Code))
-				if verifies || seq() != acc.GetSequence() || res.Code == 0 {
-					desc["log"], desc["signature_verifies"], desc["sequence_after"] = res.Log, verifies, seq()
-					r.Finding("C11/signature-lifted/"+a.url+">"+b.url, fmt.Sprintf("the signature %s gave (amino-JSON mode) for a %s verifies on a transaction that carries a %s with the same field values: that message runs in the creator's name although the creator never signed one", addr, a.url, b.url), desc)
-				}
-				before := seq()
-				own, err := c11AminoTx(txCfg, a.msg, a.msg, priv, acc.GetAccountNumber(), before)
-				if err != nil {
-					e.Close()
-					return err
-				}
-				res = e.App.DeliverTx(abci.RequestDeliverTx{Tx: own})
-				r.Hist("amino-signed control", fmt.Sprintf("%s/%d past-ante=%v", res.Codespace, res.Code, seq() == before+1))
-				if seq() != before+1 && a.msg.ValidateBasic() == nil {
-					desc["log"] = res.Log
-					r.Finding("C11/signed-tx/creator-amino-signature-rejected", a.url+": the transaction the creator signed itself in amino-JSON mode did not pass the ante handler", desc)
-				}
-				e.Close()
 			}
+			res := e.App.DeliverTx(abci.RequestDeliverTx{Tx: lifted})
+			past := seq() != acc.GetSequence()
+			r.Count("lifted:"+ua+">"+ub, true)
+			r.Hist("lifted signature", fmt.Sprintf("verifies=%v past-ante=%v deliver=%s/%d", verifies, past, res.Codespace, res.Code))
+			if verifies {
+				desc["log"], desc["signature_verifies"], desc["past_the_ante_handler"] = res.Log, verifies, past
+				r.Finding("C11/signature-lifted/"+ua+">"+ub, fmt.Sprintf("the signature %s gave (amino-JSON mode) for a %s verifies on a transaction that carries a %s with the same field values: that message is authenticated as the creator's although the creator never signed one", addr, ua, ub), desc)
+			}
+			before := seq()
+			own, err := c11AminoTx(txCfg, a, a, priv, acc.GetAccountNumber(), before)
+			if err != nil {
+				e.Close()
+				return err
+			}
+			res = e.App.DeliverTx(abci.RequestDeliverTx{Tx: own})
+			r.Hist("amino-signed control", fmt.Sprintf("%s/%d past-ante=%v", res.Codespace, res.Code, seq() == before+1))
+			if seq() != before+1 && a.ValidateBasic() == nil {
+				desc["log"] = res.Log
+				r.Finding("C11/signed-tx/creator-amino-signature-rejected", ua+": the transaction the creator signed itself in amino-JSON mode did not pass the ante handler", desc)
+			}
+			e.Close()
 		}
 	}
 	return nil
